@@ -1,7 +1,8 @@
 import GlmVerif.Spec.C12
-import GlmVerif.Gen.C12
-/-! table check of family `length2` against the model generated from /repo (kernel evaluation) -/
+import GlmVerif.Gen.C12.length2
+/-! table check of family `length2` against the model of its units generated from /repo (kernel evaluation) -/
 namespace Glm.Props.C12
 open Glm Glm.Spec.C12 Glm.Gen.C12
-theorem length2_ok : f_length2.ok lookup = true := by decide +kernel
+set_option maxHeartbeats 4000000 in
+theorem length2_ok : f_length2.ok (fun _ ks => length2_L ks) = true := by decide +kernel
 end Glm.Props.C12
